@@ -6,6 +6,9 @@ import (
 	"math"
 	"strings"
 
+	"github.com/evolbioinfo/gotree/io/utils"
+	"github.com/evolbioinfo/gotree/mcrt"
+
 	"verif/harness/enum"
 	rm "verif/harness/refmodel"
 )
@@ -15,7 +18,7 @@ import (
 var c01Floats = []float64{1, 0, math.Copysign(0, -1), 0.1 + 0.2, 1e-7, 1e21, 5e-324, 1.7976931348623157e308, 123456789.12345679, -2.5, 0.000001, 1e-300}
 var c01TipNames = []string{"1", "1e5", "a b", "é", "-0.5", "TREE", "x/y", "0x1p-2", "Inf", "a'b", "1/2", "1 b", "a 1", "1 2"}
 var c01InnerNames = []string{"n", "in ner", "'q d'", "BEGIN", "é1", "1x", "a/b", "1/x", "x 1", "2009/H1N1"}
-var c01Comments = [][]string{{"c"}, {""}, {"a b"}, {"x;y"}, {"(:,"}, {"&k={a,b}"}, {"c1", "c2"}, {"c1", "c2", "c3"}, {"["}, {" lead"}, {"1.5"}, {"0.99 "}, {" 1"}, {"a 1 ,b"}, {"&hpd=(0.25 , 0.75 )"}, {"1 2"}, {"trail "}}
+var c01Comments = [][]string{{"c"}, {""}, {"a b"}, {"x;y"}, {"(:,"}, {"&k={a,b}"}, {"c1", "c2"}, {"c1", "c2", "c3"}, {"["}, {" lead"}, {"1.5"}, {"0.99 "}, {" 1"}, {"a 1 ,b"}, {"&hpd=(0.25 , 0.75 )"}, {"1 2"}, {"trail "}, {"  two"}, {"\ttab"}, {"a,  b"}, {"x(\t y"}, {"l1\nl2"}}
 
 type c01slot struct {
 	n     int // menu size incl. default 0
@@ -213,7 +216,7 @@ func init() {
 				for _, n := range []int{64, 1000} {
 					cat := &rm.Node{Name: "t0", HasLen: true, Len: 0.1}
 					for i := 1; i < n; i++ {
-						cat = &rm.Node{Children: []*rm.Node{cat, {Name: fmt.Sprintf("t%d", i), HasLen: true, Len: float64(i) / 8}}, HasLen: true, Len: 1.0 / float64(i), HasSup: true, Sup: 0.5}
+						cat = &rm.Node{Children: []*rm.Node{cat, {Name: fmt.Sprintf("t x%d", i), HasLen: true, Len: float64(i) / 8}}, HasLen: true, Len: 1.0 / float64(i), HasSup: true, Sup: 0.5}
 					}
 					cat.HasLen, cat.HasSup = false, false
 					star := &rm.Node{}
@@ -224,6 +227,8 @@ func init() {
 						m := m
 						c.Count("large_instances", 1)
 						c.Check(c01case{Model: "large"}, func() (string, string) { return c01check(m, 0) })
+						// the same text through the reader the commands use (line splitting, 4096-byte read buffer)
+						c.Check(c01case{Model: "large-through-ReadMultiTrees"}, func() (string, string) { return c01multi(m) })
 					}
 				}
 			}
@@ -243,4 +248,42 @@ func init() {
 			}
 		},
 	})
+}
+
+// c01multi: the written text read back through utils.ReadMultiTrees (what every command does) gives the model.
+func c01multi(m *rm.Tree) (string, string) {
+	var key, what string
+	r := guard(func() {
+		t := build(m)
+		w1 := t.Newick()
+		ch := utils.ReadMultiTrees(bufReader(w1+"\n"), utils.FORMAT_NEWICK)
+		n := 0
+		for {
+			tr, ok := mcrt.Recv2(ch)
+			if !ok {
+				break
+			}
+			n++
+			if tr.Err != nil {
+				key, what = "C01/multi-reader/error", fmt.Sprintf("ReadMultiTrees rejects the writer's own output (%d bytes): %v", len(w1), tr.Err)
+				return
+			}
+			o, err := observe(tr.Tree)
+			if err != nil {
+				key, what = "C01/multi-reader/malformed", err.Error()
+				return
+			}
+			if d := sameModel(m, o, true); d != "" {
+				key, what = "C01/multi-reader/"+strings.Fields(d)[1], fmt.Sprintf("tree read by ReadMultiTrees from the writer's output (%d bytes) differs from the tree written: %s", len(w1), d)
+				return
+			}
+		}
+		if n != 1 {
+			key, what = "C01/multi-reader/count", fmt.Sprintf("%d records for one tree", n)
+		}
+	})
+	if crashed(r) {
+		return "C01/crash/" + crashSite(r), verdictStr(r)
+	}
+	return key, what
 }
